@@ -4,7 +4,8 @@ from __future__ import annotations
 import ast as _ast
 import struct as _struct
 
-from ..common import all_conds, alloc_typecodes, cell_range_fn, conds_at, mro_methods, nshow, outer_field, paths, typed_fields
+from ..common import all_conds, alloc_typecodes, empty_subfilter_lemma, cell_range_fn, conds_at, mro_methods, nshow, outer_field, paths, typed_fields
+from ..effects import Effects
 from ..expr import C, SELF, canon, norm, show, strip_epochs, walk
 from ..intervals import Intervals, fmt_iv
 from ..model import AnalysisError
@@ -140,6 +141,27 @@ def reader_paths(prog, ctx, fname):
     f = prog.method(ctx, fname)
     ps = [p for p in paths(prog, ctx, f, inline="deep") if p.exit[0] == "return"]
     return f, ps
+
+
+def _skipped_empty_frame(p, cnt, cel, cfmt):
+    """the cursor of a frame that is left as built (counter constant 0, cells the fresh allocation) because its counter, read directly from the
+    input at the cursor, compared equal to 0 on this path; None when the path is not of that shape"""
+    if len(cnt) != 1 or len(cel) != 1 or cnt[0].value != C(0):
+        return None
+    v = cel[0].value
+    if not (v[0] == "nary" and v[1] == "*" and any(x[0] == "newb" for x in v[2])):
+        return None
+    for c in p.conds:
+        a = strip_epochs(c.atom)
+        if c.truth and a[0] == "cmp" and a[1] == "==" and C(0) in (a[2], a[3]) and getattr(c, "loops", ()) == cel[0].loops:
+            x = a[3] if a[2] == C(0) else a[2]
+            while x[0] == "call" and x[1] == ("g", "int") and len(x[2]) == 1:
+                x = x[2][0]
+            if x[0] == "unp" and bare(x[1]) == bare(cfmt) and x[2] == 0 and direct_input(x[3], LABELS):
+                sl = [n for n in walk(x[3]) if n[0] == "slice"]
+                if sl and canon(sl[0][3]) == canon(("bin", "+", sl[0][2], C(_struct.calcsize(cfmt)))):
+                    return sl[0][2]
+    return None
 
 
 def loaded_obj(f, p):
@@ -441,6 +463,35 @@ def check(prog, rep, tier):
             check_footer(prog, rep, "expanding", wctx, wfmt, wslots, wctx, rn)
             f, ps = reader_paths(prog, wctx, rn)
             okf = None
+
+            def frame_end_ok(sf, binds, start, end, qs):
+                """end - start == Q + (cells of one sub-filter); the cell count is the allocation length of the fresh sub-filter"""
+                allocs = [e for e in sf if e.name == "_bloom" and e.value[0] == "nary" and e.value[1] == "*"]
+                if not allocs:
+                    return False
+                rest = [x for x in allocs[0].value[2] if x[0] != "newb"]
+                Lraw = rest[0] if len(rest) == 1 else ("nary", "*", tuple(rest))
+                L = canon(Lraw)
+                T = None
+                e_c = canon(end)
+                for cand in [n for n in walk(end) if n[0] == "hv"] + [bv for bv in binds.values()]:
+                    if e_c == canon(("bin", "+", ("bin", "+", start, qs), cand)):
+                        T = cand
+                if T is None and e_c == canon(("bin", "+", ("bin", "+", start, qs), Lraw)):
+                    T = Lraw  # end = start + Q + allocation length, written out
+                if T is None:
+                    return False
+                if T[0] == "hv":
+                    vals = {canon(e.value) for q in ps for e in q.events if e.kind == "bind" and e.name == T[1] and e.loops}
+                    Ls = set()
+                    for q in ps:
+                        for e in q.events:
+                            if e.kind == "setfield" and e.base[0] == "new" and e.base[1] == "BloomFilter" and e.loops and e.name == "_bloom" \
+                                    and e.value[0] == "nary" and e.value[1] == "*":
+                                r_ = [x for x in e.value[2] if x[0] != "newb"]
+                                Ls.add(canon(r_[0] if len(r_) == 1 else ("nary", "*", tuple(r_))))
+                    return bool(vals) and vals <= Ls
+                return canon(T) == L
             for p in ps:
                 obj = loaded_obj(f, p)
                 # sub-filter frames
@@ -452,6 +503,22 @@ def check(prog, rep, tier):
                     break
                 cnt = [e for e in sf if e.name == "_els_added"][-1:]
                 cel = [e for e in sf if e.name == "_bloom"][-1:]
+                skipped = _skipped_empty_frame(p, cnt, cel, cfmt)
+                if skipped is not None:
+                    # the frame's counter was read at the cursor and found 0; the fresh sub-filter (counter 0, zero cells) is kept as it is.
+                    # That restores the frame only if an empty sub-filter always has zero cells, and the cursor must still move past the frame
+                    why = empty_subfilter_lemma(prog, Effects(prog), wctx)
+                    if why:
+                        okf = ("frame skipped on a zero counter", f"a frame whose counter reads 0 is not copied, but {why}")
+                        break
+                    start_ = skipped
+                    nxt_ = [e.value for e in p.events if e.kind == "bind" and e.loops == cel[0].loops and start_[0] == "hv" and e.name == start_[1]]
+                    binds_ = {e.name: e.value for e in p.events if e.kind == "bind" and e.loops == cel[0].loops}
+                    if not nxt_ or not frame_end_ok(sf, binds_, start_, nxt_[-1], C(_struct.calcsize(cfmt))):
+                        okf = ("cursor arithmetic", "after a frame whose counter reads 0 the cursor is " + (nshow(nxt_[-1]) if nxt_ else "left where it was")
+                               + ": the following frames are read from the wrong offset")
+                        break
+                    continue
                 if cnt and cnt[0].value[0] == "c" and any(c.atom[0] == "loop0" and c.truth for c in p.conds):
                     continue  # sub-filters were built but the frame loop did not run (no frame to restore on this path)
                 if len(cnt) != 1 or len(cel) != 1:
@@ -477,33 +544,8 @@ def check(prog, rep, tier):
                     end = s2[0][3]
                     nxt = [val for nm, val in binds.items() if start[0] == "hv" and nm == start[1]]
                     okc = okc and nxt and canon(nxt[-1]) == canon(end)
-                    # end - start == Q + (cells of one sub-filter); the cell count is the allocation length of the fresh sub-filter
                     allocs = [e for e in sf if e.name == "_bloom" and e.value[0] == "nary" and e.value[1] == "*"]
-                    L = None
-                    if allocs:
-                        rest = [x for x in allocs[0].value[2] if x[0] != "newb"]
-                        L = canon(rest[0] if len(rest) == 1 else ("nary", "*", tuple(rest)))
-                    T = None
-                    e_c = canon(end)
-                    for cand in [n for n in walk(end) if n[0] == "hv"] + [bv for bv in binds.values()]:
-                        if e_c == canon(("bin", "+", ("bin", "+", start, qs), cand)):
-                            T = cand
-                    if okc and T is None and L is not None and e_c == canon(("bin", "+", ("bin", "+", start, qs), allocs[0].value and
-                                                                                     (rest[0] if len(rest) == 1 else ("nary", "*", tuple(rest))))):
-                        T = rest[0] if len(rest) == 1 else ("nary", "*", tuple(rest))  # end = start + Q + allocation length, written out
-                    okc = okc and T is not None and L is not None
-                    if okc and T[0] == "hv":
-                        vals = {canon(e.value) for q in ps for e in q.events if e.kind == "bind" and e.name == T[1] and e.loops}
-                        Ls = set()
-                        for q in ps:
-                            for e in q.events:
-                                if e.kind == "setfield" and e.base[0] == "new" and e.base[1] == "BloomFilter" and e.loops and e.name == "_bloom" \
-                                        and e.value[0] == "nary" and e.value[1] == "*":
-                                    r_ = [x for x in e.value[2] if x[0] != "newb"]
-                                    Ls.add(canon(r_[0] if len(r_) == 1 else ("nary", "*", tuple(r_))))
-                        okc = bool(vals) and vals <= Ls
-                    elif okc:
-                        okc = canon(T) == L
+                    okc = bool(okc) and frame_end_ok(sf, binds, start, end, qs)
                 if not okc and s1 and s2 and allocs:
                     # closed form: frame k starts at k * stride with stride = counter bytes + cells of one sub-filter
                     rest_ = [x for x in allocs[0].value[2] if x[0] != "newb"]
@@ -665,7 +707,6 @@ def check(prog, rep, tier):
                         "(e.g. a different query mode)", f.where())
     # the on-disk filter's bytes() is its file: the stored count must follow every mutator
     rep.rule("C05.ondisk-count-current", "on-disk Bloom: every mutator of persisted state rewrites the stored count, so bytes()/export carry the current count", floor=1)
-    from ..effects import Effects
     from .C19 import ondisk_sync_lemma
     miss = ondisk_sync_lemma(prog, Effects(prog))
     if miss:
@@ -730,6 +771,10 @@ MUTANTS = [
     Mutant("D9 re-introduced: fingerprint may be 0", _CK, del_stmt("CuckooFilter", "_generate_fingerprint_info", "if fingerprint == 0"), rule="C05.sentinel"),
     Mutant("expanding _parse_blooms: counter read at the wrong offset", _E, replace_expr("ExpandingBloomFilter", "_parse_blooms", "b[start:start + self.__S_INT64_STRUCT.size]", "b[start + 1:start + 1 + self.__S_INT64_STRUCT.size]"), rule="C05.expanding"),
     Mutant("expanding _parse_blooms: cursor not advanced", _E, del_stmt("ExpandingBloomFilter", "_parse_blooms", "start = end"), rule="C05.expanding"),
+    Mutant("expanding _parse_blooms: a frame with counter 0 is not copied, cursor advanced (same result)", _E,
+           replace_stmt("ExpandingBloomFilter", "_parse_blooms", "blm._els_added = int(", "els = int(self.__S_INT64_STRUCT.unpack(bytes(b[start : start + self.__S_INT64_STRUCT.size]))[0])\nif els == 0:\n    self._blooms.append(blm)\n    start = end\n    continue\nblm._els_added = els"), expect="silent"),
+    Mutant("expanding _parse_blooms: a frame with counter 0 is not copied and the cursor stays", _E,
+           replace_stmt("ExpandingBloomFilter", "_parse_blooms", "blm._els_added = int(", "els = int(self.__S_INT64_STRUCT.unpack(bytes(b[start : start + self.__S_INT64_STRUCT.size]))[0])\nif els == 0:\n    self._blooms.append(blm)\n    continue\nblm._els_added = els"), rule="C05.expanding"),
     Mutant("expanding __load forgets the total", _E, del_stmt("ExpandingBloomFilter", "__load", "self._added_elements = els_added"), rule="C05.slot"),
     Mutant("expanding frombytes forgets the total", _E, del_stmt("ExpandingBloomFilter", "frombytes", "blm._added_elements = added_els"), rule="C05.slot"),
     Mutant("CountMinSketch.__bytes__ with its own body", _CM, replace_stmt("CountMinSketch", "__bytes__", "with BytesIO() as f", "return self._bins.tobytes()"), rule="C05.one-body"),
